@@ -590,3 +590,20 @@ package s3db
 //@   loop 1 invariant forall i int :: imp(visited(i), has(values, i))
 //@   loop 1 invariant forall k string :: has(new.ColumnValues, k) == (has(c.ColumnIndexByName, k) && visited(colIdx(c, k)) && colIdx(c, k) != c.KeyCol)
 //@   loop 1 invariant forall k string :: imp(has(new.ColumnValues, k), new.ColumnValues[k] != nil && fresh(new.ColumnValues[k]) && new.ColumnValues[k].UpdateOffset == nil && tagged(new.ColumnValues[k].Value, values[colIdx(c, k)]))
+
+// mergeValues: the custom merge installed in the kv layer. Both entries are
+// live rows; the result is stamped with the later modification time and holds
+// the row merge of the two (older first), re-based to that time.
+//@ func mergeValues
+//@   requires !tomb(i1) && !tomb(i2) && absOK(i1.ModEpochNanos) && absOK(i2.ModEpochNanos)
+//@   requires typeis(i1.Value, *v1proto.Row) && typeis(i2.Value, *v1proto.Row)
+//@   requires rowHeadOK(i1.Value.(*v1proto.Row), tm(i1.ModEpochNanos)) && rowHeadOK(i2.Value.(*v1proto.Row), tm(i2.ModEpochNanos))
+//@   requires forall k string :: colOK(i1.Value.(*v1proto.Row), tm(i1.ModEpochNanos), k) && colOK(i2.Value.(*v1proto.Row), tm(i2.ModEpochNanos), k)
+//@   any col string
+//@   modifies nothing
+//@   ensures stamp: result.ModEpochNanos == max(i1.ModEpochNanos, i2.ModEpochNanos) && result.TombstoneSinceEpochNanos == 0
+//@   ensures row: typeis(result.Value, *v1proto.Row) && result.Value.(*v1proto.Row) != nil && entryOK(result, col)
+//@   ensures merge: absRow(result.Value.(*v1proto.Row), tm(result.ModEpochNanos), col) ==
+//@       ite(i1.ModEpochNanos < i2.ModEpochNanos,
+//@           M(absRow(i1.Value.(*v1proto.Row), tm(i1.ModEpochNanos), col), absRow(i2.Value.(*v1proto.Row), tm(i2.ModEpochNanos), col)),
+//@           M(absRow(i2.Value.(*v1proto.Row), tm(i2.ModEpochNanos), col), absRow(i1.Value.(*v1proto.Row), tm(i1.ModEpochNanos), col)))
